@@ -82,7 +82,7 @@ theorem shared_eq_fresh_of_no_mutation (vs : List Variant) (args : List Arg) (ex
 /-- the D8 witness: variants `(tuple[float, bool]) -> int` and `(tuple[int, int]) -> int`,
     call `ov((a, 2))` with `a : int` -/
 def d8Variants : List Variant :=
-  [⟨[.tup [.float, .bool]], .int⟩, ⟨[.tup [.int, .int]], .int⟩]
+  [.plain { params := [.tup [.float, .bool]], ret := .int }, .plain { params := [.tup [.int, .int]], ret := .int }]
 def d8Args : List Arg := [.tup [.typed .int, .intLit false]]
 
 /-- **D8 (the defect, on the pre-fix loop)**: reusing the argument objects violates the
@@ -91,26 +91,64 @@ def d8Args : List Arg := [.tup [.typed .int, .intLit false]]
     The repaired loop resolves it to variant 1. -/
 theorem d8_shared_violates_first_match :
     resolveShared d8Variants d8Args none = none ∧
-      accepts ⟨[.tup [.int, .int]], .int⟩ d8Args none = true ∧
+      accepts (.plain { params := [.tup [.int, .int]], ret := .int }) d8Args none = true ∧
         (resolve d8Variants d8Args none).map (·.1) = some 1 := by
   refine ⟨?_, ?_, ?_⟩ <;> decide
 
+/-- **C15 (an overloaded function as a variant)**: it accepts exactly when one of its own
+    variants accepts. -/
+theorem nested_accepts_iff (ss : List Sig) (args : List Arg) (exp : Option Ty) :
+    accepts (.nested ss) args exp = ss.any (fun s => accepts (.plain s) args exp) := by
+  unfold accepts attempt resolveSigs
+  suffices ∀ k, ((match resolveSigs.go args exp ss k with
+      | some (j, o) => ((some { o with inner := some j } : Option Outcome), args)
+      | none => (none, args)).1.isSome) = ss.any (fun s => (attemptSig s args exp).1.isSome) from this 0
+  induction ss with
+  | nil => intro k; rfl
+  | cons s rest ih =>
+    intro k
+    unfold resolveSigs.go
+    rcases hs : attemptSig s args exp with ⟨r, a⟩
+    cases r with
+    | some o => simp [hs]
+    | none => simp [hs, ih (k + 1)]
+
 /-! ### Non-vacuity -/
+
+/-- checking position, first variant wants a compile-time `nat` and gets a runtime value
+    (`ComptimeUnknownError`, not a type error): the second variant is chosen -/
+example : (resolve [.plain { params := [.nat], comptime := [true], ret := .int },
+                    .plain { params := [.nat], ret := .int }] [.typed .nat] (some .int)).map (·.1) = some 1 := by decide
+
+/-- the same set with a literal: the comptime variant accepts -/
+example : (resolve [.plain { params := [.nat], comptime := [true], ret := .int },
+                    .plain { params := [.nat], ret := .int }] [.intLit false] (some .int)).map (·.1) = some 0 := by decide
+
+/-- an inner overloaded function without a match, then a plain variant -/
+example : (resolve [.nested [{ params := [.int], ret := .int }, { params := [.int, .int], ret := .int }],
+                    .plain { params := [.int, .int, .int], ret := .int }]
+            [.intLit false, .intLit false, .intLit false] (some .int)).map (·.1) = some 1 := by decide
+
+/-- a variadic custom function listed first takes two `int`s -/
+example : (resolve [.allInts, .plain { params := [.float, .float], ret := .int }]
+            [.intLit false, .typed .int] none).map (·.1) = some 0 := by decide
+
+
 
 /-- first variant fails on the second argument only (after a successful coercion of the
     first), second variant is chosen; synthesis position -/
-example : (resolve [⟨[.float, .bool], .int⟩, ⟨[.int, .int], .float⟩] [.typed .nat, .intLit false] none).map
+example : (resolve [.plain { params := [.float, .bool], ret := .int }, .plain { params := [.int, .int], ret := .float }] [.typed .nat, .intLit false] none).map
     (fun r => (r.1, r.2.ret.beq .float)) = some (1, true) := by decide
 
 /-- checking position: the first variant accepts the arguments but returns the wrong type -/
-example : (resolve [⟨[.int], .int⟩, ⟨[.float], .float⟩] [.intLit false] (some .float)).map (·.1) = some 1 := by
+example : (resolve [.plain { params := [.int], ret := .int }, .plain { params := [.float], ret := .float }] [.intLit false] (some .float)).map (·.1) = some 1 := by
   decide
 
 /-- generic variant `(T, T) -> T`: `(float, int)` is accepted (second argument widened), `(int, float)` is not -/
-example : accepts ⟨[.var 0, .var 0], .var 0⟩ [.typed .float, .typed .int] none = true ∧
-    accepts ⟨[.var 0, .var 0], .var 0⟩ [.typed .int, .typed .float] none = false := by decide
+example : accepts (.plain { params := [.var 0, .var 0], ret := .var 0 }) [.typed .float, .typed .int] none = true ∧
+    accepts (.plain { params := [.var 0, .var 0], ret := .var 0 }) [.typed .int, .typed .float] none = false := by decide
 
 /-- no variant accepts -/
-example : resolve [⟨[.bool], .int⟩, ⟨[.int, .int], .int⟩] [.floatLit] none = none := by decide
+example : resolve [.plain { params := [.bool], ret := .int }, .plain { params := [.int, .int], ret := .int }] [.floatLit] none = none := by decide
 
 end GuppyVerif.Overload
